@@ -273,6 +273,18 @@ func runC13(c *Ctx) {
 	}
 }
 
+// behindStringEquality: block b is only reached when a comparison of two strings for equality held.
+func behindStringEquality(b *ssa.BasicBlock) bool {
+	for _, f := range core.FactsAt(b) {
+		if bo, ok := f.Cond.(*ssa.BinOp); ok && isString(bo.X.Type()) && isString(bo.Y.Type()) {
+			if (bo.Op == token.EQL && f.Truth) || (bo.Op == token.NEQ && !f.Truth) {
+				return true
+			}
+		}
+	}
+	return false
+}
+
 // checkRegisteredValueQuoted: R13.1 (second half). A value registered by AddValue/AddPrecomputedValue is quoted before it is
 // compiled for the exact-occurrence shortcut, and the compile error is not dropped.
 func checkRegisteredValueQuoted(c *Ctx, p *core.Prog) {
@@ -385,23 +397,121 @@ func runC16(c *Ctx) {
 	// search of one in the other (a license that contains another license's text would be reported as that one)
 	if nm := p.Func(scPkg, "(*Classifier).nearestMatch"); nm != nil {
 		nS := 0
-		for _, lit := range structLits([]*ssa.Function{nm}, "stringclassifier.Match") {
+		// the shortcut may live in a helper of nearestMatch
+		scope := []*ssa.Function{nm}
+		inScope := map[*ssa.Function]bool{nm: true}
+		for k := 0; k < len(scope) && k < 16; k++ {
+			for _, call := range core.CallsIn(scope[k]) {
+				if cal := call.Common().StaticCallee(); cal != nil && !inScope[cal] && core.FuncPkgPath(cal) == scPkg && len(cal.Blocks) > 0 {
+					inScope[cal] = true
+					scope = append(scope, cal)
+				}
+			}
+		}
+		for _, lit := range structLits(scope, "stringclassifier.Match") {
 			conf, ok := lit.fields["Confidence"].(*ssa.Const)
 			if !ok || conf.Value == nil || conf.Value.ExactString() != "1" {
 				continue
 			}
 			nS++
-			eq := false
-			for _, f := range core.FactsAt(lit.alloc.Block()) {
-				if bo, ok := f.Cond.(*ssa.BinOp); ok && bo.Op == token.EQL && f.Truth && isString(bo.X.Type()) && isString(bo.Y.Type()) {
-					eq = true
-				}
-				if bo, ok := f.Cond.(*ssa.BinOp); ok && bo.Op == token.NEQ && !f.Truth && isString(bo.X.Type()) && isString(bo.Y.Type()) {
-					eq = true
+			eq := behindStringEquality(lit.alloc.Block())
+			how := "guarded by `unknown == known`"
+			if !eq {
+				// the deferred form: the value found equal is remembered in a variable that is nil otherwise, and the
+				// shortcut is taken after the loop when it is not nil - every assignment of a value to it stands behind
+				// the equality
+				for _, f := range core.FactsAt(lit.alloc.Block()) {
+					bo, ok := f.Cond.(*ssa.BinOp)
+					if !ok || !((bo.Op == token.NEQ && f.Truth) || (bo.Op == token.EQL && !f.Truth)) {
+						continue
+					}
+					v := bo.X
+					if cx, isC := bo.X.(*ssa.Const); isC && cx.IsNil() {
+						v = bo.Y
+					} else if cy, isC := bo.Y.(*ssa.Const); !isC || !cy.IsNil() {
+						continue
+					}
+					if _, isPtr := v.Type().Underlying().(*types.Pointer); !isPtr {
+						continue
+					}
+					all, n := true, 0
+					seen := map[ssa.Value]bool{}
+					var walk func(v ssa.Value, from *ssa.BasicBlock)
+					walk = func(v ssa.Value, from *ssa.BasicBlock) {
+						if seen[v] {
+							return
+						}
+						switch x := v.(type) {
+						case *ssa.Phi:
+							seen[x] = true
+							for i, e := range x.Edges {
+								walk(e, x.Block().Preds[i])
+							}
+							return
+						case *ssa.Const:
+							if !x.IsNil() {
+								all = false
+							}
+							return
+						case *ssa.UnOp:
+							// a variable that was not lifted to a register (a named result of a function that defers):
+							// what it holds is what was stored in it
+							if al, isAl := x.X.(*ssa.Alloc); isAl && x.Op == token.MUL && al.Referrers() != nil {
+								seen[x] = true
+								for _, r := range *al.Referrers() {
+									switch rr := r.(type) {
+									case *ssa.Store:
+										if rr.Addr != al {
+											all = false
+										} else if ld, isLd := rr.Val.(*ssa.UnOp); isLd && ld.Op == token.MUL && ld.X == al {
+											// the variable copied to itself (the return sequence)
+										} else {
+											walk(rr.Val, rr.Block())
+										}
+									case *ssa.UnOp, *ssa.DebugRef:
+									default:
+										all = false
+									}
+								}
+								return
+							}
+						case *ssa.Extract:
+							if call, isCall := x.Tuple.(*ssa.Call); isCall {
+								if cal := call.Call.StaticCallee(); cal != nil && core.InRepo(cal) && len(cal.Blocks) > 0 {
+									seen[x] = true
+									for _, b := range cal.Blocks {
+										if ret, isRet := b.Instrs[len(b.Instrs)-1].(*ssa.Return); isRet && b != cal.Recover && x.Index < len(ret.Results) {
+											walk(ret.Results[x.Index], b)
+										}
+									}
+									return
+								}
+							}
+						case *ssa.Call:
+							if cal := x.Call.StaticCallee(); cal != nil && core.InRepo(cal) && len(cal.Blocks) > 0 {
+								seen[x] = true
+								for _, b := range cal.Blocks {
+									if ret, isRet := b.Instrs[len(b.Instrs)-1].(*ssa.Return); isRet && b != cal.Recover && len(ret.Results) == 1 {
+										walk(ret.Results[0], b)
+									}
+								}
+								return
+							}
+						}
+						n++
+						if from == nil || !behindStringEquality(from) {
+							all = false
+						}
+					}
+					walk(v, nil)
+					if all && n > 0 {
+						eq = true
+						how = fmt.Sprintf("taken when %s is not nil, which is assigned at %d place(s), each behind `unknown == known`", core.AP(v), n)
+					}
 				}
 			}
 			c.R.Check(eq, "R16.4", "nearestMatch: the exact-match shortcut stands behind an equality of the unknown text and the known value", p.Pos(lit.alloc.Pos()),
-				"guarded by `unknown == known`", "the shortcut that reports confidence 1.0 is not guarded by an equality of the two texts: a text that merely contains (or is found by a pattern of) a known value is reported as that value")
+				how, "the shortcut that reports confidence 1.0 is not guarded by an equality of the two texts: a text that merely contains (or is found by a pattern of) a known value is reported as that value")
 		}
 		c.R.Count("R16.4:exact-match shortcuts in nearestMatch", nS)
 	}
